@@ -78,8 +78,16 @@ def perGroupNumba (value : Term) : Out :=
   Out.ret [Term.app "for" [Term.sym "xg", Term.app "yield_groups_numba" [Term.sym "x", Term.sym "group", Term.sym "drop_na"],
     Term.app "block" [Term.app ".append" [Term.app "list" [], value]]]] (Term.app "list" [])
 
+/-- count_unique under Numba (since fix fd6a701): per run, the number of distinct NON-missing elements — `np.unique` sorts, and
+    NaN / NaT compare false to everything, so they must not reach it — plus the number of missing elements, each counting as an
+    element of its own: `Numba.countUniqueNumba`, and what `len(set(xg))` gives on the Python path for float / datetime columns. -/
 theorem count_unique_numba_code (truth : Term → Bool) :
-    agg_count_unique_apply_numba truth = perGroupNumba (Term.app "len" [Term.app "np.unique" [Term.sym "xg"]]) := rfl
+    agg_count_unique_apply_numba truth =
+      Out.ret [Term.app "for" [Term.sym "xg", Term.app "yield_groups_numba" [Term.sym "x", Term.sym "group", Term.sym "drop_na"],
+        Term.app "block" [Term.app "assign" [Term.sym "na", Term.app "is_na_numba" [Term.sym "xg"]],
+          Term.app ".append" [Term.app "list" [],
+            Term.app "Add" [Term.app "len" [Term.app "np.unique" [Term.app "getitem" [Term.sym "xg", Term.app "~" [Term.sym "na"]]]],
+                            Term.app ".sum" [Term.sym "na"]]]]]] (Term.app "list" []) := rfl
 
 theorem quantile_numba_code (truth : Term → Bool) :
     agg_quantile_apply_numba truth = perGroupNumba (Term.app "ifexp" [Term.app "GtE" [Term.app "len" [Term.sym "xg"], Term.int 1],
